@@ -15,9 +15,9 @@ CHECKS = {
     ),
     "C03": dict(
         level="other",
-        text="Decides the hand-over algebra for every frame spacing and file layout: Forcing.__init__ and each path of Forcing.update are evaluated abstractly (frame reads opaque functions of the requested step) and the post-state of (u, u_new, dU) is compared with the inductive invariant of linear time interpolation; the file holding the requested step is selected by identity on every path to a read; steps are sorted before use; velocity(fractional_step=c) samples u + c*dU for each c the schemes use. Values on real data are not decided.",
+        text="Decides the hand-over algebra for every frame spacing and file layout: Forcing.__init__ and each path of Forcing.update are evaluated abstractly (frame reads opaque functions of the requested step) and the post-state of (u, u_new, dU) is compared with the inductive invariant of linear time interpolation; the file holding the requested step is selected by identity on every path to a read; steps are sorted before use; velocity(fractional_step=c) samples u + c*dU for each c the schemes use; an in-place write to a field array never reaches storage two entries of self.fields may share (points-to analysis per method); a value memoised between calls is dropped on every path that writes its inputs. Values on real data are not decided.",
         note="Trusted: CPython ast, Fraction arithmetic, the checker. Assumed: frames on the step lattice; time2step exact there (C13).",
-        technique="static analysis: inductive invariant checked by abstract interpretation of each path (rational normal forms) + dominance of file selection over reads + typestate SORTED",
+        technique="static analysis: inductive invariant checked by abstract interpretation of each path (rational normal forms) + dominance of file selection over reads + typestate SORTED + flow-sensitive may-point-to analysis of field storage + path enumeration for memo invalidation",
     ),
     "C04": dict(
         level="other",
@@ -99,9 +99,9 @@ CHECKS = {
     ),
     "C11": dict(
         level="other",
-        text="Decides the second-moment algebra and the independence structure, not the sampled distribution: with each rng.normal call replaced by a unit-variance atom the squared coefficient of the draw in the stored position equals 2*D*dt/dx^2 (2*Dz*dt), there is no constant term, U/V/W use distinct per-call draws of the current particle count, and no draw is made when both coefficients are zero.",
+        text="Decides the second-moment algebra and the independence structure, not the sampled distribution: with each rng.normal call replaced by a unit-variance atom the squared coefficient of the draw in the stored position equals 2*D*dt/dx^2 (2*Dz*dt), there is no constant term, U/V/W use distinct per-call draws of the current particle count, and no draw is made when both coefficients are zero; Grid.metric computes the metric from the positions of this call on every path (no memo).",
         note="Trusted: numpy Generator.normal(size=n) yields n independent N(0,1); CPython ast; the checker. Not decided: sample statistics, land interaction.",
-        technique="static analysis: abstract interpretation (rational normal forms with half-integer monomial powers) + control-dependence of RNG uses",
+        technique="static analysis: abstract interpretation (rational normal forms with half-integer monomial powers) + control-dependence of RNG uses + definite assignment of argument-derived attributes",
     ),
     "C17": dict(
         level="proof",
